@@ -9,7 +9,7 @@ func init() {
 	run.Register(&run.Check{
 		ID:    "C13",
 		Level: "exploration",
-		Cases: func(tier string) int { return tierN(tier, 1500, 20000) },
+		Cases: func(tier string) int { return tierN(tier, 3000, 60000) },
 		Run:   runC13,
 		Rule: "sequential slice: case = (multihash configuration with small files, key universe, history with a Flush after every mutating call, primary/index GC cycles, restarts); at every quiescent point the on-disk layout is decoded by fsck and the multiset of locations that stopped being current since the previous point (overwritten, removed, relocated) must equal the multiset of entries appended to the freelist file (plus batches captured at the hand-over hook); batches consumed by GC must be dead afterwards and no location is marked twice or while current; " +
 			"non-trivial iff >=3 comparison points and >=2 freelist entries were observed; distinct = hash of (configuration, digests, operations)",
